@@ -87,7 +87,9 @@ Inductive qcls := QGeneric | QMySQL | QPostgres | QMSSQL.
 
 (* a stored join: its item and, for JoinOn, criterion.tables_ (the Table instances of its fields);
    JoinUsing / Join have no .criterion attribute *)
-Record jrec := mkJ { j_item : tbl; j_crit : option (list ptab); j_alq : list tbl }.
+Record jrec := mkJ { j_item : tbl; j_crit : option (list ptab); j_alq : list tbl; j_alq_hid : list tbl }.
+(* j_alq_hid: AliasedQuery references of the criterion that sit in operands nodes_ does not visit (not an attribute of
+   the implementation, which cannot see them: kept so that the specification can speak about them) *)
 (* j_alq: the AliasedQuery objects among the tables of the criterion's fields (JoinOn.validate_with) *)
 
 Record qst := mkQ {
@@ -153,8 +155,87 @@ Inductive ufield := UStr | UField | UOther.
 
 (* a field as the guards see it: its table (or None) and its name *)
 Definition jfield := (tref * string)%type.
+(* a join criterion, by the operand structure of the term classes.  JoinOn.validate / validate_with see it only through
+   Term.find_ = nodes_; the last constructor stands for the classes whose nodes_ leaves operands out (gen/C14Table.v
+   nodes_coverage, expected_nodes_coverage below): Negative.term, AtTimezone.field, the PARTITION BY / ORDER BY /
+   FILTER parts of aggregate and analytic functions *)
+Inductive jterm :=
+| JF (f : jfield)                                  (* Field *)
+| JConst                                           (* ValueWrapper / anything without fields *)
+| JBin (l r : jterm)                               (* BasicCriterion, ComplexCriterion, ArithmeticExpression, BitwiseAndCriterion *)
+| JTri (t lo hi : jterm)                           (* RangeCriterion (BETWEEN, field[lo:hi], PERIOD), NestedCriterion *)
+| JIn (t : jterm) (items : list jterm)             (* ContainsCriterion over a Tuple *)
+| JUn (t : jterm)                                  (* NullCriterion, NotNullCriterion, Not, All *)
+| JFn (args : list jterm)                          (* Function *)
+| JCase (whens : list (jterm * jterm)) (els : option jterm)
+| JHid (vis hid : list jterm).                     (* operands nodes_ visits / does not visit *)
+
+Fixpoint jall (c : jterm) : list jfield :=          (* every field of the criterion *)
+  match c with
+  | JF f => [f]
+  | JConst => []
+  | JBin l r => jall l ++ jall r
+  | JTri t lo hi => jall t ++ jall lo ++ jall hi
+  | JIn t items => jall t ++ flat_map jall items
+  | JUn t => jall t
+  | JFn args => flat_map jall args
+  | JCase whens els =>
+      (fix go (l : list (jterm * jterm)) := match l with [] => [] | (w, t) :: r => jall w ++ jall t ++ go r end) whens
+      ++ match els with Some e => jall e | None => [] end
+  | JHid vis hid => flat_map jall vis ++ flat_map jall hid
+  end.
+Fixpoint jvis (c : jterm) : list jfield :=          (* find_(Field): what nodes_ reaches *)
+  match c with
+  | JF f => [f]
+  | JConst => []
+  | JBin l r => jvis l ++ jvis r
+  | JTri t lo hi => jvis t ++ jvis lo ++ jvis hi
+  | JIn t items => jvis t ++ flat_map jvis items
+  | JUn t => jvis t
+  | JFn args => flat_map jvis args
+  | JCase whens els =>
+      (fix go (l : list (jterm * jterm)) := match l with [] => [] | (w, t) :: r => jvis w ++ jvis t ++ go r end) whens
+      ++ match els with Some e => jvis e | None => [] end
+  | JHid vis _ => flat_map jvis vis
+  end.
+Fixpoint jhid (c : jterm) : list jfield :=          (* the fields below an operand nodes_ does not visit *)
+  match c with
+  | JF _ => []
+  | JConst => []
+  | JBin l r => jhid l ++ jhid r
+  | JTri t lo hi => jhid t ++ jhid lo ++ jhid hi
+  | JIn t items => jhid t ++ flat_map jhid items
+  | JUn t => jhid t
+  | JFn args => flat_map jhid args
+  | JCase whens els =>
+      (fix go (l : list (jterm * jterm)) := match l with [] => [] | (w, t) :: r => jhid w ++ jhid t ++ go r end) whens
+      ++ match els with Some e => jhid e | None => [] end
+  | JHid vis hid => flat_map jhid vis ++ flat_map jall hid
+  end.
+Fixpoint jmap (g : tref -> tref) (c : jterm) : jterm :=
+  match c with
+  | JF f => JF (g (fst f), snd f)
+  | JConst => JConst
+  | JBin l r => JBin (jmap g l) (jmap g r)
+  | JTri t lo hi => JTri (jmap g t) (jmap g lo) (jmap g hi)
+  | JIn t items => JIn (jmap g t) (map (jmap g) items)
+  | JUn t => JUn (jmap g t)
+  | JFn args => JFn (map (jmap g) args)
+  | JCase whens els =>
+      JCase ((fix go (l : list (jterm * jterm)) := match l with [] => [] | (w, t) :: r => (jmap g w, jmap g t) :: go r end) whens)
+            (match els with Some e => Some (jmap g e) | None => None end)
+  | JHid vis hid => JHid (map (jmap g) vis) (map (jmap g) hid)
+  end.
+(* (l1 == r1) & (l2 == r2) & ... *)
+Fixpoint crit_of_pairs (l : list (jfield * jfield)) : jterm :=
+  match l with
+  | [] => JConst
+  | [p] => JBin (JF (fst p)) (JF (snd p))
+  | p :: r => JBin (JBin (JF (fst p)) (JF (snd p))) (crit_of_pairs r)
+  end.
+
 Inductive joinhow :=
-| JOn (crit : option (list (jfield * jfield)))   (* .on(criterion): None, or (l1 == r1) & (l2 == r2) & ... *)
+| JOn (crit : option jterm)         (* .on(criterion): None, or a criterion *)
 | JOnField (n : nat)                (* .on_field( n names ) *)
 | JUsing (n : nat)                  (* .using( n names ) *)
 | JCross.                           (* .cross() *)
@@ -209,10 +290,9 @@ Definition base_tables (s : qst) : list tref :=
 
 Definition table_name (t : tbl) : string :=
   match t with TTab p => match pt_alias p with Some a => a | None => pt_name p end | TAlq n => n | TSub a _ _ => ostr a end.
-(* nodes_ order: BasicCriterion (and its subclass ComplexCriterion) yields its right operand before its left
-   one, so the fields of ((l1 == r1) & (l2 == r2)) & ... come out last-to-first *)
-Definition crit_nodes (crit : list (jfield * jfield)) : list jfield := rev (flat_map (fun p => [fst p; snd p]) crit).
-Definition crit_all_tables (crit : list (jfield * jfield)) : list tref := map fst (crit_nodes crit).
+Definition crit_vis_tables (crit : jterm) : list tref := map fst (jvis crit).
+Definition crit_hid_tables (crit : jterm) : list tref := map fst (jhid crit).
+Definition crit_all_tables (crit : jterm) : list tref := crit_vis_tables crit ++ crit_hid_tables crit.
 
 Definition is_alq_ref (t : tref) : bool := match t with Some (TAlq _) => true | _ => false end.
 Fixpoint alqs_of (l : list tref) : list tbl :=
@@ -239,7 +319,9 @@ Fixpoint first_free (name : string) (taken : list string) (n fuel : nat) : nat :
   | O => n
   | S f => if existsb (String.eqb (name ++ nat_to_string n)%string) taken then first_free name taken (S n) f else n
   end.
-Definition do_join (s : qst) (item : tbl) (crit : option (list tref)) : qst :=
+(* [crit it]: the tables of the criterion's fields once the item carries its final name [it] -- on_field builds its
+   criterion from the item object itself, so criterion.tables_ later shows the numbered alias written here *)
+Definition do_join (s : qst) (item : tbl) (crit : tbl -> option (list tref)) (hid : list tref) : qst :=
   let base := base_tables s in
   let table_in_query :=
       existsb (fun clause => match clause with Some (TTab _) => mem (Some item) base | _ => false end) base in
@@ -253,7 +335,7 @@ Definition do_join (s : qst) (item : tbl) (crit : option (list tref)) : qst :=
                   else item
       | _ => item
       end in
-  set_joins s (q_joins s ++ [mkJ item' (option_map ptabs_of crit) (alqs_of (odefault [] crit))]).
+  set_joins s (q_joins s ++ [mkJ item' (option_map ptabs_of (crit item')) (alqs_of (odefault [] (crit item'))) (alqs_of hid)]).
 
 (* a sub-query that has no alias yet is named "sq<_subquery_count>" by from_() / join() (written onto the object) *)
 Definition untagged (t : tbl) : bool := match t with TSub None _ _ => true | _ => false end.
@@ -266,8 +348,7 @@ Definition same_object (item : tbl) (r : tref) : bool :=
   | _, _ => false
   end.
 Definition retag (item item' : tbl) (r : tref) : tref := if same_object item r then Some item' else r.
-Definition retag_crit (item item' : tbl) (crit : list (jfield * jfield)) : list (jfield * jfield) :=
-  map (fun p => ((retag item item' (fst (fst p)), snd (fst p)), (retag item item' (fst (snd p)), snd (snd p)))) crit.
+Definition retag_crit (item item' : tbl) (crit : jterm) : jterm := jmap (retag item item') crit.
 
 Definition join_step (s : qst) (item0 : tbl) (h : joinhow) : res qst :=
   (* QueryBuilder.join: if item.alias is None: self._tag_subquery(item)  (on the copy the Joiner keeps) *)
@@ -277,17 +358,19 @@ Definition join_step (s : qst) (item0 : tbl) (h : joinhow) : res qst :=
   | JOn None => Err JoinExc                                  (* if criterion is None: raise *)
   | JOn (Some crit0) =>
       let crit := retag_crit item0 item crit0 in
-      if validate_on s item (crit_all_tables crit) then Ok (do_join s1 item (Some (crit_all_tables crit))) else Err JoinExc
+      (* the guards see the criterion through find_(Field) / tables_: the fields nodes_ reaches *)
+      if validate_on s item (crit_vis_tables crit) then Ok (do_join s1 item (fun _ => Some (crit_vis_tables crit)) (crit_hid_tables crit))
+      else Err JoinExc
   | JOnField n =>
       if Nat.eqb n 0 then Err JoinExc                        (* if not fields: raise *)
       else match q_from s with
            | [] => Err IndexErr                              (* self.query._from[0] *)
            | f0 :: _ =>
                let crit := [Some f0; Some item] in
-               if validate_on s item crit then Ok (do_join s1 item (Some crit)) else Err JoinExc
+               if validate_on s item crit then Ok (do_join s1 item (fun it => Some [Some f0; Some it]) []) else Err JoinExc
            end
-  | JUsing n => if Nat.eqb n 0 then Err JoinExc else Ok (do_join s1 item None)
-  | JCross => Ok (do_join s1 item None)
+  | JUsing n => if Nat.eqb n 0 then Err JoinExc else Ok (do_join s1 item (fun _ => None) [])
+  | JCross => Ok (do_join s1 item (fun _ => None) [])
   end.
 
 (* ---- PostgreSQL returning ---- *)
@@ -502,12 +585,15 @@ Definition sources (s : qst) (item : tbl) : list tbl :=
   item :: q_from s ++ q_with s ++ match q_update s with Some u => [TTab u] | None => [] end ++ map j_item (q_joins s).
 Definition join_source (s : qst) (item : tbl) (t : tbl) : bool := existsb (tbl_ident t) (sources s item).
 (* table-less fields name no table at all *)
-Definition names_foreign_table (s : qst) (item : tbl) (crit : list (jfield * jfield)) : bool :=
-  existsb (fun r => match r with
-                    | None => false
-                    | Some (TAlq _) => false       (* a reference to a WITH query is judged when the statement is rendered *)
-                    | Some t => negb (join_source s item t)
-                    end) (crit_all_tables crit).
+Definition foreign_ref (s : qst) (item : tbl) (r : tref) : bool :=
+  match r with
+  | None => false
+  | Some (TAlq _) => false       (* a reference to a WITH query is judged when the statement is rendered *)
+  | Some t => negb (join_source s item t)
+  end.
+(* some field of the criterion -- in whatever operand position -- names a foreign table *)
+Definition names_foreign_table (s : qst) (item : tbl) (crit : jterm) : bool :=
+  existsb (foreign_ref s item) (crit_all_tables crit).
 (* a complete statement: it has a verb, an INSERT has values or a SELECT, an UPDATE has assignments *)
 Definition is_statement (s : qst) : bool :=
   (Nat.ltb 0 (q_selects s) || is_some (q_insert s) || q_delete s || is_some (q_update s))
@@ -517,7 +603,11 @@ Definition is_statement (s : qst) : bool :=
 Definition refers_unknown_with (s : qst) : bool :=
   existsb (fun j => existsb (fun a => negb (existsb (tbl_eqb a) (q_with s))
                                       && negb (existsb (tbl_eqb a) (q_from s))
-                                      && negb (existsb (fun j' => tbl_eqb a (j_item j')) (q_joins s))) (j_alq j)) (q_joins s).
+                                      && negb (existsb (fun j' => tbl_eqb a (j_item j')) (q_joins s))) (j_alq j ++ j_alq_hid j)) (q_joins s).
+Definition hidden_unknown_with (s : qst) : bool :=
+  existsb (fun j => existsb (fun a => negb (existsb (tbl_eqb a) (q_with s))
+                                      && negb (existsb (tbl_eqb a) (q_from s))
+                                      && negb (existsb (fun j' => tbl_eqb a (j_item j')) (q_joins s))) (j_alq_hid j)) (q_joins s).
 
 (* RETURNING: fields and strings after a '*' are dropped (like select), so only the effective terms count *)
 Fixpoint effective (star : bool) (ts : list rterm) : list rterm :=
@@ -580,10 +670,11 @@ Definition guards_q : list (guard qx) := [
   ("mssql_top_percent", (fun x => match x with (_, QTop v true) => is_integer_value v && negb (Z.leb 0 (top_value v) && Z.leb (top_value v) 100) | _ => false end), QueryExc)
 ].
 
-(* the one situation in which the code is known to deviate from the documentation (finding
-   C14-join-subquery-same-alias-same-from): the criterion names a sub-query that is none of the statement's sources
-   but carries the alias AND selects from the table of one that is -- the set arithmetic of JoinOn.validate cannot
-   tell them apart *)
+(* the situations in which the code is known to deviate from the documentation:
+   C14-join-subquery-same-alias-same-from: the criterion names a sub-query that is none of the statement's sources but
+     carries the alias AND selects from the table of one that is (the set arithmetic cannot tell them apart);
+   C14-join-operand-invisible-to-nodes: the foreign table (or the undefined WITH query) is named by a field inside an
+     operand that nodes_ does not visit (-x, x AT TIME ZONE, OVER(PARTITION BY / ORDER BY ...), FILTER(WHERE ...)) *)
 Definition frag_q (s : qst) (c : qcall) : bool :=
   match c with
   | QJoin item (JOn (Some crit)) =>
@@ -592,6 +683,8 @@ Definition frag_q (s : qst) (c : qcall) : bool :=
                         | Some t => forallb (fun u => negb (tbl_eqb t u) || tbl_ident t u) (sources s item')
                         | None => true
                         end) (crit_all_tables (retag_crit item item' crit))
+      && negb (existsb (foreign_ref s item') (crit_hid_tables (retag_crit item item' crit)))
+  | QRender => negb (is_statement s && hidden_unknown_with s)
   | _ => true
   end.
 
@@ -907,3 +1000,24 @@ Definition expected_raises : list (string * list string) := [
    C14_select_atomic proves that on the model).  returning() restores _returns/_return_star before re-raising. *)
 Definition dead_raise_methods : list string := ["QueryBuilder.select"].
 Definition expected_mutable_unsafe : list string := ["QueryBuilder.select"].
+
+(* ---- nodes_ coverage of the term classes (table extracted from pypika/terms.py: gen/C14Table.v) ---- *)
+(* the child-term attributes a class's nodes_ does not yield from: what is invisible to find_ / fields_() / tables_ and
+   therefore to JoinOn.validate, validate_with and _validate_returning_term *)
+Definition nodes_gaps (t : list (string * list string * list string)) : list (string * list string) :=
+  flat_map (fun r => match filter (fun a => negb (existsb (String.eqb a) (snd r))) (snd (fst r)) with
+                     | [] => []
+                     | g => [(fst (fst r), g)]
+                     end) t.
+(* the gaps of the current sources.  Seen by the join guards (finding C14-join-operand-invisible-to-nodes, JHid in the
+   model): Negative.term, AtTimezone.field, _filters / _orderbys / _partition of aggregate and analytic functions.
+   No terms of the enclosing statement: ValueWrapper.value (a Python value), Values.field, Function.schema (a Schema),
+   ExistsCriterion.container (a sub-query: "subqueries have their own fields"). *)
+Definition expected_nodes_gaps : list (string * list string) := [
+  ("Negative", ["term"]); ("ValueWrapper", ["value"]); ("ParameterValueWrapper", ["value"]); ("Values", ["field"]);
+  ("ExistsCriterion", ["container"]); ("Function", ["schema"]); ("AggregateFunction", ["_filters"; "schema"]);
+  ("AnalyticFunction", ["_filters"; "_orderbys"; "_partition"; "schema"]);
+  ("WindowFrameAnalyticFunction", ["_filters"; "_orderbys"; "_partition"; "schema"]);
+  ("IgnoreNullsAnalyticFunction", ["_filters"; "_orderbys"; "_partition"; "schema"]);
+  ("Pow", ["schema"]); ("Mod", ["schema"]); ("Rollup", ["schema"]); ("AtTimezone", ["field"])
+].
